@@ -532,4 +532,38 @@ UNITS += [
 """),
 ]
 
+# ---- restore: from one plan entry to one read; and which packs the plan reports as needed (warm-up, C16)
+UNITS += [
+    Unit(name="FileLocation", file=RS, kind="type", anchor="struct FileLocation {", attrs="#[derive(Clone, Copy)]"),
+    Unit(name="restore_read_of_blob", file=RS, kind="block", within="fn restore_contents<S: Open>(",
+         anchor="@closure:.map(|((pack_id, bl), fls)|",
+         block_sig="fn restore_read_of_blob(pack_id: PackId, bl: BlobLocation, fls: SmallVec<FileLocation>) -> (r: RPackInfo)",
+         block_tail="",
+         functions=["commands::restore::restore_contents (closure turning one (pack, blob) entry of the plan into one read)"],
+         rewrites=[
+             Rw(r"fls\s*\.iter\(\)\s*\.find\(\|fl\| fl\.matches\)\s*\.map\(\|fl\| \(fl\.file_idx, fl\.file_start, bl\.data_length\(\)\)\)", "vfirst_matching(&fls, &bl)" + "\n" * 3, regex=True, why="Iterator::find/map with these closure literals -> stub: a matching location, if ANY location matches"),
+             Rw(r"fls\s*\.iter\(\)\s*\.filter\(\|fl\| !fl\.matches\)\s*\.map\(\|fl\| \(fl\.file_idx, fl\.file_start\)\)\s*\.collect\(\)", "vnon_matching_dests(&fls)" + "\n" * 4, regex=True, why="Iterator::filter/map/collect with these closure literals -> stub: all locations that do not match"),
+             Rw("PackInfo {", "RPackInfo {", why="renamed: a second PackInfo (prune) lives in the same verification file"),
+         ],
+         contract="""
+    requires bl.offset + bl.length <= u32::MAX,
+    ensures
+        // the blob is read from the pack exactly when NO destination already holds it (these are the packs to_packs reports for warm-up)
+        /*@pack_is_read_iff_no_location_matches*/ r.from_file is None <==> !any_matches(fls.v@),
+        /*@read_is_this_blob_of_this_pack*/ r.pack_id == pack_id && r.locations.offset == bl.offset && r.locations.length == bl.length && r.locations.blobs.v@.len() == 1
+            && r.locations.blobs.v@[0].0 == bl,
+        // every location that does not hold the blob yet gets it
+        /*@all_mismatching_locations_are_written*/ r.locations.blobs.v@[0].1.v@ == non_matching(fls.v@),
+"""),
+    Unit(name="restore_needed_pack", file=RS, kind="block", within="pub fn to_packs(&self) -> Vec<PackId>",
+         anchor="@closure:.filter(|(_, fls)|",
+         block_sig="fn restore_needed_pack(fls: &SmallVec<FileLocation>) -> (r: bool)",
+         block_tail="",
+         functions=["commands::restore::RestorePlan::to_packs (filter closure: is the pack of this plan entry read?)"],
+         rewrites=[Rw("fls.iter().all(|fl| !fl.matches)", "vnone_matches(fls)", why="Iterator::all with this closure literal -> stub")],
+         contract="""
+    ensures /*@pack_is_reported_iff_no_location_matches*/ r == !any_matches(fls.v@),
+"""),
+]
+
 META = {"not_covered": []}
